@@ -81,6 +81,10 @@ def jobs(tier, seed):
                  max_orders=scale(tier, 120, 720), max_completions=scale(tier, 6, 7), p_fail=0.06, name="all-orders")
     js += batches("orders", scale(tier, 40, 800), scale(tier, 8, 50), gen="dag", P=dict(P8, p_items=0.3, xs_max=3), gseed=seed + 1,
                   max_orders=scale(tier, 120, 720), max_completions=scale(tier, 7, 8), p_fail=0.05, name="all-orders-items")
+    js += batches("orders", scale(tier, 50, 1200), scale(tier, 4, 40), gen="dag", gseed=seed + 2, p_fail=0.0,
+                  P=dict(P8, nmin=5, nmax=7, p_join=0.95, p_pub=0.9, p_conflict=0.95, p_items=0.0, p_retry=0.0, p_fail_cmd=0.0,
+                         p_res_cond=0.0),
+                  max_orders=scale(tier, 60, 400), max_completions=scale(tier, 7, 8), name="nested-joins")
     return js
 
 
